@@ -141,6 +141,9 @@ def run(tier):
         try:
             if path == "ctor":
                 desc = RecordDescriptor(tname, declared)
+            elif path == "ctorstr":
+                # the deprecated single-string form: "type/name\n    type field;\n ..."
+                desc = RecordDescriptor(tname + "\n" + "".join(f"    {t} {n};\n" for t, n in declared))
             elif path == "frame":
                 data = rc.header_frame() + rc.descriptor_frame(tname, declared) + rc.record_frame(tname, declared, ["v"] * len(declared) + [None, None, None, 1])
                 recs = list(RecordStreamReader(io.BytesIO(data)))
@@ -189,6 +192,14 @@ def run(tier):
         c["tripwire"] = os.path.exists(TRIP)
         return c
 
+    def str_form_ok(text, pos):
+        """can the candidate be spelled in the single-string form without changing what is offered?"""
+        if not text or "\n" in text or text != text.strip():
+            return False
+        if pos == "field":
+            return not re.search(r"\s", text) and not text.endswith(";")
+        return True
+
     def classes_of(text):
         out = []
         for ch in text[:40]:
@@ -215,13 +226,18 @@ def run(tier):
             for pos in ("field", "type"):
                 cases.append(offer(sc, text, pos, "ctor"))
                 ctx.case((pos, text))
+                if str_form_ok(text, pos) and (thorough or rep == 0):
+                    cases.append(offer(sc, text, pos, "ctorstr"))
+                    ctx.case((pos, text, "ctorstr"))
     # (1a) EVERY non-ASCII concretisation (look-alikes and letters that fold / normalise to ASCII) in a few contexts, all paths
     for ch in CONC["X"] + CONC["F"]:
         for text in (ch, ch + "d", "u" + ch + "d", "a" + ch, "test/" + ch + "nfo", ch.upper() + "x", ch.lower() + "x"):
             for pos in ("field", "type"):
                 if "/" in text and pos == "field":
                     continue
-                for path in ("ctor", "frame", "json"):
+                for path in ("ctor", "frame", "json", "ctorstr"):
+                    if path == "ctorstr" and not str_form_ok(text, pos):
+                        continue
                     cases.append(offer(classes_of(text), text, pos, path))
                     ctx.case((pos, text, path, "nonascii"))
     # (1b) the candidate as SECOND field, after a Python-keyword field (which selects the other class template) and after a plain one
@@ -248,9 +264,12 @@ def run(tier):
                 ctx.case((pos, text, path))
     # (3) hostile payloads and special names, all paths (class-string computed from the text)
     specials = PAYLOADS + ["RECORD_VERSION", "Record", "self", "cls", "args", "kwargs", "k", "v", "f", "values", "class", "from", "None", "True", "x" * 200, "a" * 254, "A/b/C_1", "a/b/", "/a", "a//b", "_a", "a_", "a1", "1a"]
+    specials += ["test/1abc", "_private/x", "test//a", "test/a/", "t\u00e9st/a", "test/a\rimport os", "a\rb", "a/b\x0bc", "a/b\x0cc", "a/b\x1cc", "a/b\x85c", "a/b\u2028c"]
     for text in specials:
         for pos in ("field", "type"):
-            for path in ("ctor", "frame", "json", "avro"):
+            for path in ("ctor", "frame", "json", "avro", "ctorstr"):
+                if path == "ctorstr" and not str_form_ok(text, pos):
+                    continue
                 cases.append(offer(classes_of(text), text, pos, path))
                 ctx.case((pos, text, path))
     # (5) history: a VALID definition is read first; then, with new readers, definitions whose strings are another cut of
@@ -309,15 +328,18 @@ def run(tier):
     importlib.import_module = ispy
     try:
         for tn in TYPE_CANDIDATES:
-            for path in ("ctor", "frame"):
+            # alone; and shadowed by / shadowing another declaration of the SAME field name with a whitelisted type
+            for path, shape in [(p, s) for p in ("ctor", "frame") for s in ("alone", "dup-first", "dup-last", "dup-middle")]:
                 ispy.names.clear()
                 ok, exc = False, "none"
+                fl = {"alone": [(tn, "f")], "dup-first": [(tn, "f"), ("string", "f")], "dup-last": [("string", "f"), (tn, "f")],
+                      "dup-middle": [("string", "g"), (tn, "f"), ("varint", "g"), ("string", "f")]}[shape]
                 try:
                     if path == "ctor":
-                        RecordDescriptor(f"t/ty{next(uniq)}", [(tn, "f")])
+                        RecordDescriptor(f"t/ty{next(uniq)}", fl)
                     else:
                         nm = f"t/ty{next(uniq)}"
-                        list(RecordStreamReader(io.BytesIO(rc.header_frame() + rc.descriptor_frame(nm, [(tn, "f")]))))
+                        list(RecordStreamReader(io.BytesIO(rc.header_frame() + rc.descriptor_frame(nm, fl))))
                     ok = True
                 except BaseException as e:  # noqa
                     if isinstance(e, (KeyboardInterrupt, SystemExit)):
@@ -326,9 +348,9 @@ def run(tier):
                 base_name = tn[:-2] if tn.endswith("[]") else tn
                 legit = base_name in WHITELIST
                 bad_imports = [n for n in ispy.names if not (n == "flow.record.fieldtypes" or n.startswith("flow.record.fieldtypes."))]
-                ctx.case(("fieldtype", tn, path))
+                ctx.case(("fieldtype", tn, path, shape))
                 if (ok and not legit) or bad_imports or os.path.exists(TRIP):
-                    ctx.violation({"check": "fieldtype-whitelist", "typename": tn[:40], "path": path, "accepted": ok, "imports": bad_imports[:3]}, {"imports": ispy.names[:10], "exc": exc})
+                    ctx.violation({"check": "fieldtype-whitelist", "typename": tn[:40], "path": path, "shape": shape, "accepted": ok, "imports": bad_imports[:3]}, {"imports": ispy.names[:10], "exc": exc})
     finally:
         importlib.import_module = ispy.real
         base.exec = builtins.exec
